@@ -425,4 +425,60 @@ theorem reinit_spec {h : Heap} (wf : HeapWF h) (nets : List (String × Nat)) (ra
         · simp only [reinit]; rw [m3]
           cases rand <;> simp
 
+
+/-! ### lookups in appended / mapped association lists -/
+section
+variable {κ β : Type} [DecidableEq κ]
+
+theorem aget_append (a b : List (κ × β)) (k : κ) :
+    aget (a ++ b) k = match aget a k with
+      | some v => some v
+      | none => aget b k := by
+  induction a with
+  | nil => simp
+  | cons e r ih =>
+    obtain ⟨k0, v0⟩ := e
+    by_cases hk : k0 = k
+    · simp [aget_cons, hk]
+    · simp [aget_cons, hk, ih]
+
+theorem mem_keys_aset (d : List (κ × β)) (k x : κ) (v : β) : x ∈ keys (aset d k v) ↔ x ∈ keys d ∨ x = k := by
+  rw [keys_aset]
+  by_cases hm : k ∈ keys d
+  · simp only [hm, if_true]
+    constructor
+    · exact Or.inl
+    · rintro (h | h)
+      · exact h
+      · subst h; exact hm
+  · simp [hm]
+end
+
+theorem aget_nets_map (nets : List (String × Nat)) (f : Nat → FVal) (p : String × Nat) (hp : p ∈ nets)
+    (hn : (keys nets).Nodup) :
+    aget (nets.map (fun q => (MKey.str q.1, f q.2))) (.str p.1) = some (f p.2) := by
+  induction nets with
+  | nil => simp at hp
+  | cons q r ih =>
+    simp only [keys, List.map_cons, List.nodup_cons] at hn
+    rcases List.mem_cons.1 hp with h | h
+    · subst h; simp [aget_cons]
+    · have hne : q.1 ≠ p.1 := by
+        intro e
+        exact hn.1 (e ▸ List.mem_map.2 ⟨p, h, rfl⟩)
+      have hne' : ¬ MKey.str q.1 = MKey.str p.1 := fun e => hne (by injection e)
+      simp only [List.map_cons, aget_cons, hne', if_false]
+      exact ih h hn.2
+
+theorem aget_nets_map_none (nets : List (String × Nat)) (f : Nat → FVal) (k : MKey)
+    (hk : k ∉ nets.map (fun q => MKey.str q.1)) :
+    aget (nets.map (fun q => (MKey.str q.1, f q.2))) k = none := by
+  rw [aget_none_iff]
+  simpa [keys, List.map_map, Function.comp_def] using hk
+
+/-- names of `self.networks` per state type -/
+def netNames : Kind → List String
+  | .pos => ["rbm_am"]
+  | _ => ["rbm_am", "rbm_ph"]
+
 end QV.Store
